@@ -10,9 +10,11 @@ Representation
   the Python object are the two projections of ONE list of pairs.  The harness maps group names
   (strings, ints, ...) to `Nat` codes preserving their Python sort order, so `sorted(set(..))` is
   "sorted distinct codes".
-* `np.argsort` is not stable: the model sorts with the (stable) `List.mergeSort` on the score; all
-  theorems about the order inside a block of tied scores are stated up to permutation and the
-  harness compares such blocks as multisets.
+* `np.argsort` is not stable: the model sorts with the (stable) `List.mergeSort` on the score.
+  `C12_tie_order_irrelevant` (SA/Theorems/C12Ties.lean) proves that every admissible joint order
+  (a permutation of the input pairs, sorted by score) has the same observables, so the choice is
+  immaterial; the harness compares the held label arrays inside tied blocks as multisets, which is
+  exactly admissibility.
 * the cache `_grouped_scores` is explicit state (`GState`); queries are a transition function.
 * sampling runs on a scripted RNG (SA/Model/Rng.lean) and reuses `sampleIndices`
   (SA/Model/Sampling.lean = `Scores._sample_indices`, which `GroupScores` inherits).
